@@ -25,6 +25,7 @@ import (
 
 	"golang.org/x/sys/unix"
 
+	"github.com/panjf2000/gnet/v2/internal/vhook"
 	errorx "github.com/panjf2000/gnet/v2/pkg/errors"
 	"github.com/panjf2000/gnet/v2/pkg/logging"
 	"github.com/panjf2000/gnet/v2/pkg/queue"
@@ -98,8 +99,10 @@ func (p *Poller) Trigger(priority queue.EventPriority, fn queue.Func, param any)
 		// but that's tolerable because it ought to be a rare case.
 		p.urgentAsyncTaskQueue.Enqueue(task)
 	}
+	vhook.Gate("p.cas", p, 0)
 	if atomic.CompareAndSwapInt32(&p.wakeupCall, 0, 1) {
 		for {
+			vhook.Gate("p.efdwrite", p, 0)
 			_, err = unix.Write(p.epa.FD, b)
 			if err == unix.EAGAIN {
 				_, _ = unix.Read(p.epa.FD, p.efdBuf)
@@ -119,7 +122,9 @@ func (p *Poller) Polling() error {
 
 	msec := -1
 	for {
+		vhook.Gate("p.wait", p, msec)
 		n, err := epollWait(p.fd, el.events, msec)
+		vhook.Ev("p.woke", p, n, 0)
 		if n == 0 || (n < 0 && err == unix.EINTR) {
 			msec = -1
 			runtime.Gosched()
@@ -147,6 +152,7 @@ func (p *Poller) Polling() error {
 			doChores = false
 			task := p.urgentAsyncTaskQueue.Dequeue()
 			for ; task != nil; task = p.urgentAsyncTaskQueue.Dequeue() {
+				vhook.Ev("p.exec", p, 0, 0)
 				err = task.Exec(task.Param)
 				if errors.Is(err, errorx.ErrEngineShutdown) {
 					return err
@@ -157,15 +163,19 @@ func (p *Poller) Polling() error {
 				if task = p.asyncTaskQueue.Dequeue(); task == nil {
 					break
 				}
+				vhook.Ev("p.exec", p, 1, 0)
 				err = task.Exec(task.Param)
 				if errors.Is(err, errorx.ErrEngineShutdown) {
 					return err
 				}
 				queue.PutTask(task)
 			}
+			vhook.Gate("p.store0", p, 0)
 			atomic.StoreInt32(&p.wakeupCall, 0)
+			vhook.Gate("p.recheck", p, 0)
 			if (!p.asyncTaskQueue.IsEmpty() || !p.urgentAsyncTaskQueue.IsEmpty()) && atomic.CompareAndSwapInt32(&p.wakeupCall, 0, 1) {
 				for {
+					vhook.Gate("p.efdwrite", p, 1)
 					_, err = unix.Write(p.epa.FD, b)
 					if err == unix.EAGAIN {
 						_, _ = unix.Read(p.epa.FD, p.efdBuf)
